@@ -500,7 +500,7 @@ pub fn run(ctx: &mut Ctx) {
     ctx.cases("spec/Register", n, 0, spec_case::<Register<char>>);
     ctx.cases("spec/WORegister", n, 0, spec_case::<WORegister<char>>);
     ctx.cases("spec/Vec", n, 0, spec_case::<Vec<char>>);
-    let h = ctx.n(1500, 25000);
+    let h = ctx.n(1500, 120000);
     ctx.cases("harness/register/linearizability", h, 0, |c| reg::harness_case::<reg::Lin>(c, "linearizability"));
     ctx.cases("harness/register/sequential", h / 2, 0, |c| reg::harness_case::<reg::Sc>(c, "sequential-consistency"));
     ctx.cases("harness/write-once/linearizability", h, 0, |c| wo::harness_case::<wo::Lin>(c, "linearizability"));
